@@ -232,9 +232,12 @@ class Environment:
             # Multiple process can wait for the same failed event.
             try:
                 exc = type(event._value)(*event._value.args)
+                if exc.args != event._value.args:
+                    raise TypeError('constructor transforms its args')
                 exc.__cause__ = event._value
-            except TypeError:
-                # The constructor does not take the exception's own args.
+            except Exception:
+                # The constructor does not reproduce the exception from its
+                # own args.
                 exc = event._value
             raise exc
 
